@@ -80,7 +80,7 @@ def _judge(case, b):
                               'incomplete flag: true exactly for runs cut short by an interrupt-style exception (outcome %s)' % (R['outcome'],), R['incomplete'], md.get(FW[4])))
         if not R['incomplete'] and md.get(FW[3]) is not R['exc_flag']:
             viols.append(viol('exception-flag:expected-%s:got-%s' % (R['exc_flag'], md.get(FW[3])), 'exception flag of a run that was not cut short', R['exc_flag'], md.get(FW[3])))
-        user = {k: v for k, v in md.items() if k not in FW}
+        user = {k: v for k, v in md.items() if k not in FW and not str(k).startswith('_tape_recorder_')}   # (further framework-reserved keys are not user metadata)
         if b.prog.get('ext') == 'nonstr':
             # a mapping with a non-string key: the serializer turns the key into text; all of the extractor's entries or none of them
             keys = sorted(map(str, user))
